@@ -49,6 +49,7 @@ def run(ctx):
         locals_parse(F, res)
         locals_emit(F, res)
         local_lookup(F, res)
+        map_append_only(F, res)
     except (EvalError, KeyError) as e:
         res.error('not analysable: %s' % e)
     return res
@@ -234,6 +235,59 @@ def locals_parse(F, res):
         res.ok('parse/locals', {'parser': 'parse_local_functions', 'rule': 'locals.add -> push_local(function id, that local), params first'})
     else:
         res.error('parse_local_functions: no world creating locals')
+
+
+def map_append_only(F, res):
+    """the parse-time index map only grows: what `on_parse` (and the name / custom-section parsers) are handed is everything
+    that was pushed.  Scan every body for a call that can take something out of a field of IndicesToIds."""
+    from cfg import callee_name
+    from heval import norm_path
+    REMOVERS = {'clear', 'remove', 'truncate', 'drain', 'take', 'retain', 'pop', 'swap_remove', 'split_off', 'remove_entry',
+                'shrink_to', 'replace', 'swap', 'extract_if', 'retain_mut', 'dedup'}
+    offenders = []
+    n_calls = 0
+    for p, body in F.mir.items():
+        locs = body['locals']
+        # locals that are (references to) fields of an IndicesToIds
+        fieldrefs = {}
+        for b in body['blocks']:
+            for st in b['stmts']:
+                if st.get('s') == 'Assign' and len(st['p']) == 1:
+                    r = st['r']
+                    if r.get('rv') == 'Ref' and r.get('p'):
+                        pl = r['p']
+                        bty = locs[pl[0]]['ty'] if pl[0] < len(locs) else ''
+                        flds = [x for x in pl[1:] if isinstance(x, str) and x.startswith('.')]
+                        if 'parse::IndicesToIds' in bty and flds:
+                            fieldrefs[st['p'][0]] = flds[0]
+                    # whole-field assignment: map.field = ..
+                if st.get('s') == 'Assign' and len(st['p']) >= 2:
+                    pl = st['p']
+                    bty = locs[pl[0]]['ty'] if pl[0] < len(locs) else ''
+                    flds = [x for x in pl[1:] if isinstance(x, str) and x.startswith('.')]
+                    if 'parse::IndicesToIds' in bty and bty.lstrip('&').startswith(('mut ', "'")) is not None and len(flds) == 1 \
+                            and pl[-1] == flds[0] and '&' in bty:
+                        offenders.append((p, 'assignment to ' + flds[0]))
+        for b in body['blocks']:
+            t = b['term']
+            if t.get('t') != 'Call':
+                continue
+            n = norm_path(callee_name(t) or '')
+            last = n.split('::')[-1]
+            for a in t.get('args') or []:
+                pl = a.get('m') or a.get('c')
+                if pl and len(pl) == 1 and pl[0] in fieldrefs:
+                    n_calls += 1
+                    if last in REMOVERS or (n.startswith('std::mem::') and last in ('take', 'replace', 'swap')):
+                        offenders.append((p, '%s on %s' % (last, fieldrefs[pl[0]])))
+    if offenders:
+        for p, what in offenders[:4]:
+            res.bad('parse/index-map-append-only/%s' % p.split('::')[-1], 'the parse-time index map loses entries in %s (%s): whoever is handed '
+                    'the map afterwards (on_parse, name and custom section parsing) no longer sees every pushed entity' % (p, what))
+    elif n_calls < 8:
+        res.error('index-map scan saw only %d calls on fields of IndicesToIds (anchor lost?)' % n_calls)
+    else:
+        res.ok('parse/index-map-append-only', {'calls_on_index_map_fields': n_calls, 'removals': 0})
 
 
 def local_lookup(F, res):
